@@ -445,7 +445,16 @@ def build_real_world(t, scn, root):
                 with open(os.path.join(d, name), 'w') as f:
                     f.write('\n'.join(parts))
                 os.utime(os.path.join(d, name), (s.get('mtime', core.EPOCH0), s.get('mtime', core.EPOCH0)))
-            rd = FileReader(d, ignoreErrors=not s.get('strict', False))
+            if s.get('zip'):
+                import zipfile
+                from pysmi.reader.zipreader import ZipReader
+                zp = os.path.join(root, 'src%d.zip' % i)
+                with zipfile.ZipFile(zp, 'w', zipfile.ZIP_DEFLATED) as z:
+                    for fn in sorted(os.listdir(d)):
+                        z.write(os.path.join(d, fn), ('nested/' if s.get('zip') == 'sub' else '') + fn)
+                rd = ZipReader(zp, ignoreErrors=not s.get('strict', False))
+            else:
+                rd = FileReader(d, ignoreErrors=not s.get('strict', False))
             sources.append(RealTap(t, i, rd, 'src.getData'))
         for i, se in enumerate(scn.get('searchers', ())):
             if se.get('flavour') in ('stub', 'realstub'):
@@ -533,6 +542,12 @@ def run_world(scn, root=None, writer=None, extra_setup=None):
                 if int(i) < len(srcs):
                     srcs[int(i)].spec['holds'].update(copy.deepcopy(held))
             scn2 = dict(t.scn)
+            if sec.get('respec'):
+                mods2 = copy.deepcopy(scn2['modules'])
+                for m_, chg in sorted(sec['respec'].items()):
+                    if m_ in mods2:
+                        mods2[m_].update(copy.deepcopy(chg))
+                scn2['modules'] = mods2
             scn2['requested'] = list(sec.get('requested', scn['requested']))
             scn2['options'] = dict(sec.get('options', {}))
             scn2['sources'] = [s_.spec for s_ in srcs]
@@ -694,6 +709,8 @@ def gen_world(rng, tier, focus='C07'):
                 ans[m] = 'fresh'
             elif r < pf + 0.1 and fl != 'realstub':
                 ans[m] = 'error'
+        if fl == 'realstub' and rng.random() < 0.3:
+            ans = {'Q-' + rng.choice(names): 'fresh'}     # exactly one listed name, of which a real module name is a substring
         searchers.append({'flavour': fl, 'answers': ans})
     scn['searchers'] = searchers
     # borrowers
@@ -740,6 +757,16 @@ def gen_world(rng, tier, focus='C07'):
             if rng.random() < p_:
                 o2[nm] = True
         scn['second'] = {'requested': list(req) if rng.random() < 0.6 else [rng.choice(names)], 'options': o2, 'gain': gain, 'lose': lose}
+        if rng.random() < 0.5 and len(names) >= 2:
+            # a module's text changes between the calls (new import, other objects) while its source keeps the mtime
+            m_ = rng.choice(names)
+            others = [x for x in names if x != m_ and x not in specs[m_]['imports']]
+            chg = {'arcs': sorted(set(specs[m_]['arcs'] + [77])), 'nobj': len(set(specs[m_]['arcs'] + [77]))}
+            if others:
+                chg['imports'] = specs[m_]['imports'] + [rng.choice(others)]
+            scn['second']['respec'] = {m_: chg}
+            if rng.random() < 0.7:
+                scn['second']['options']['rebuild'] = True
     if focus in ('C07', 'C08') and rng.random() < 0.12:
         # names spelled in another case in IMPORTS; sources resolve them like the file readers do and report the
         # matching variant as alias
@@ -763,6 +790,8 @@ def gen_world(rng, tier, focus='C07'):
         scn['listing_seed'] = rng.randrange(1 << 30)
         for s_ in scn['sources']:
             s_['strict'] = rng.random() < 0.5
+            if rng.random() < 0.3:
+                s_['zip'] = rng.choice([True, 'sub'])
         if rng.random() < 0.6:
             scn['rate'] = {'p': rng.choice([0.01, 0.03, 0.1]), 'seed': rng.randrange(1 << 30), 'actions': ['errno', 'short'],
                            'sites': sorted(rng.sample(['os.stat', 'os.listdir', 'open', 'file.read', 'mkstemp', 'os.write', 'os.close', 'os.rename'], rng.randrange(2, 8)))}
@@ -787,6 +816,10 @@ def shrink_world(scn):
         for k2 in sorted(scn['second'].get('options', {})):
             s = copy.deepcopy(scn)
             del s['second']['options'][k2]
+            yield s
+        if scn['second'].get('respec'):
+            s = copy.deepcopy(scn)
+            s['second'].pop('respec')
             yield s
     for key in ('inject', 'writer_fail'):
         for i in range(len(scn.get(key, []))):
